@@ -1,5 +1,6 @@
 /- C08 — property theorems. -/
 import TornadoModel.C08.Agree
+import TornadoModel.C08.StreamLemmas
 namespace TornadoModel.C08
 open TornadoModel.C06
 
@@ -175,6 +176,44 @@ theorem interim_sticky_refuted : ¬ client_agrees_with_spec_zok_full := by
   intro h
   have h' := h wCfg okZ wSticky true (by decide)
   revert h'
+  decide
+
+/-! ### what reaches `streaming_callback` -/
+
+/-- the recording machine of `Stream.lean` is the machine of the other theorems: same phase after any segments -/
+theorem pieces_machine (cfg : Cfg) (segs : List Bytes) :
+    (segs.foldl (feedP cfg) initialP).1 = runPhase cfg segs := by
+  have := foldlP_fst cfg segs initialP
+  simp only [initialP] at this
+  unfold runPhase initial initialP
+  rw [← this]
+
+theorem sum_take_le : ∀ (l : List Nat) (k : Nat), (l.take k).sum ≤ l.sum
+  | [], k => by simp
+  | _ :: _, 0 => by simp
+  | a :: l, k + 1 => by simp only [List.take_succ_cons, List.sum_cons]; have := sum_take_le l k; omega
+
+/-- **streamed_le_limit**: whatever the server sends, in whatever segmentation, whatever zlib yields for it, and
+    whether the fetch succeeds or fails afterwards: at every point of the fetch the bytes handed to
+    `streaming_callback` so far (after decompression) number at most `max_body_size`. -/
+theorem streamed_le_limit (cfg : Cfg) (segs : List Bytes) (eof : Bool) (tbl : List (List ZCall)) (k : Nat) :
+    ((streamed cfg segs eof tbl).take k).sum ≤ cfg.maxBody := by
+  refine Nat.le_trans (sum_take_le _ k) ?_
+  obtain ⟨⟨g, hg⟩, hl⟩ := pieces_ok cfg segs eof
+  unfold streamed
+  cases g with
+  | false => rw [deliver_plain cfg.maxBody _ tbl 0 hg]; exact hl
+  | true => simpa using deliver_gz_le cfg.maxBody _ tbl 0 hg (Nat.zero_le _)
+
+/-- a gzip body of 3 bytes on the wire that inflates to 5 + 4 bytes in two `decompress` calls -/
+def bStream : Bytes :=
+  "HTTP/1.1 200 OK\r\nContent-Encoding: gzip\r\nContent-Length: 3\r\n\r\nABC".toList.map Char.toNat
+
+example : pieces wCfg [bStream] true = [(true, [65, 66, 67])] := by decide
+example : streamed { wCfg with maxBody := 9 } [bStream] true [[.out 5 true, .out 4 false]] = [5, 4] := by decide
+example : streamed { wCfg with maxBody := 8 } [bStream] true [[.out 5 true, .out 4 false]] = [5] := by decide
+example : streamed { wCfg with maxBody := 4 } [bStream] true [[.out 5 true, .out 4 false]] = [] := by decide
+example : streamed { wCfg with maxBody := 3, decompress := false } [bStream.take 63, bStream.drop 63] true [] = [1, 2] := by
   decide
 
 end TornadoModel.C08
